@@ -1,6 +1,6 @@
 (* C05 - when a connection dies every caller is released with an error (I/O-thread side).
    This file only pins statements. *)
-From Amq Require Import Lib.Base Gen.Consts Model.Wire Model.Frames Model.OutBuf Model.Collector Model.Slots Model.Core Spec.Slots Spec.Content Proofs.Slots Proofs.OutBuf Proofs.Collector Proofs.CoreContent Proofs.CoreInv Proofs.CoreMore Check.Core Proofs.Examples Model.Handle Proofs.Handle Model.Sys Proofs.Sys.
+From Amq Require Import Lib.Base Gen.Consts Model.Wire Model.Frames Model.OutBuf Model.Collector Model.Slots Model.Core Spec.Slots Spec.Content Proofs.Slots Proofs.OutBuf Proofs.Collector Proofs.CoreContent Proofs.CoreInv Proofs.CoreMore Check.Core Proofs.Examples Model.Handle Proofs.Handle Model.Sys Proofs.Sys Model.Close Proofs.Close.
 
 (* a read that ends in EOF / an I/O error / an unparsable frame after frames that were all processed: the event's outcome is the error that names it (unless the close handshake had completed) *)
 Theorem C05_fatal_read : forall (c : core) (fs : list dframe) (t : rterm) (c2 : core), process_all c fs = (OOk, c2) -> is_client_closed c2 = false -> fst (fst (handle_event c (EvStream None (Some (fs, t))))) = term_outcome t.
@@ -50,6 +50,14 @@ Proof. exact sys_dead_releases. Qed.
 Theorem C05_system_own_reply : forall (answer : N -> N -> N) (bound qcap : N) (progs : N -> list call), 1 <= qcap -> forall sched : list act, let s := yrun answer bound qcap (init_sys progs) sched in y_fail s = false /\ (forall n : N, let c := y_ch s n in yc_results c = map (answer n) (firstn (length (yc_results c)) (syncs (yc_issued c))) /\ (yc_wait c = false -> yc_failed c = false -> yc_results c = map (answer n) (syncs (yc_issued c))) /\ (yc_wait c = true -> exists r : N, syncs (yc_issued c) = firstn (length (yc_results c)) (syncs (yc_issued c)) ++ [r] /\ inflight answer s n = [answer n r]) /\ (yc_failed c = false -> (length (yc_replyq c) <= 1)%nat) /\ yc_issued c ++ yc_prog c = progs n /\ (yc_failed c = true -> y_dead s = true)).
 Proof. exact sys_own_reply. Qed.
 
+(* the caller's side of Connection::close (close_impl, Model/Close.v): whatever the close request on channel 0 itself returned (Ok, EventLoopDropped because the slot was dropped, the verdict left in the reply queue), an error the I/O thread ended with is what close() returns - the root cause, not a consequence of it *)
+Theorem C05_close_reports_root_cause : forall (req : req_res) (e : N), fst (close_impl true req (IoErr e)) = CErr e.
+Proof. exact close_reports_root_cause. Qed.
+
+(* close() returns Ok exactly when the I/O thread ended cleanly (the close handshake completed) and the close request was answered *)
+Theorem C05_close_ok_iff : forall (req : req_res) (io : io_end), fst (close_impl true req io) = COk <-> io = IoOk /\ req = ReqOk.
+Proof. exact close_ok_iff. Qed.
+
 (* non-vacuity of C05_releases_*: in a reachable state with two channels and a consumer on
    each, every queue has a live sender; after the thread's state is dropped none has *)
 Example C05_example :
@@ -83,6 +91,8 @@ Check C05_blocks_only_waiting : forall (c : hcall) (s : hstate), hstep c s = Non
 Check C05_verdict_reported : forall (c : hcall) (e : N) (rest : list hitem) (s : hstate), c <> CNowait \/ h_mail_rx s = false -> h_replies s = HErr e :: rest -> exists s' : hstate, hstep c s = Some (RErrItem e, s') /\ h_replies s' = rest.
 Check C05_system_dead_releases : forall (answer : N -> N -> N) (bound qcap : N) (progs : N -> list call), 1 <= qcap -> forall (sched : list act) (n : N), let s := yrun answer bound qcap (init_sys progs) sched in y_dead s = true -> yc_wait (y_ch (ystep answer bound qcap s (ARecv n)) n) = false /\ yc_wait (y_ch (ystep answer bound qcap s (ASend n)) n) = yc_wait (y_ch s n) /\ (yc_wait (y_ch s n) = false -> yc_failed (y_ch s n) = false -> yc_prog (y_ch s n) <> [] -> yc_failed (y_ch (ystep answer bound qcap s (ASend n)) n) = true /\ yc_mail (y_ch (ystep answer bound qcap s (ASend n)) n) = yc_mail (y_ch s n)).
 Check C05_system_own_reply : forall (answer : N -> N -> N) (bound qcap : N) (progs : N -> list call), 1 <= qcap -> forall sched : list act, let s := yrun answer bound qcap (init_sys progs) sched in y_fail s = false /\ (forall n : N, let c := y_ch s n in yc_results c = map (answer n) (firstn (length (yc_results c)) (syncs (yc_issued c))) /\ (yc_wait c = false -> yc_failed c = false -> yc_results c = map (answer n) (syncs (yc_issued c))) /\ (yc_wait c = true -> exists r : N, syncs (yc_issued c) = firstn (length (yc_results c)) (syncs (yc_issued c)) ++ [r] /\ inflight answer s n = [answer n r]) /\ (yc_failed c = false -> (length (yc_replyq c) <= 1)%nat) /\ yc_issued c ++ yc_prog c = progs n /\ (yc_failed c = true -> y_dead s = true)).
+Check C05_close_reports_root_cause : forall (req : req_res) (e : N), fst (close_impl true req (IoErr e)) = CErr e.
+Check C05_close_ok_iff : forall (req : req_res) (io : io_end), fst (close_impl true req io) = COk <-> io = IoOk /\ req = ReqOk.
 
 Print Assumptions C05_fatal_read.
 Print Assumptions C05_fatal_outcomes.
@@ -96,5 +106,7 @@ Print Assumptions C05_blocks_only_waiting.
 Print Assumptions C05_verdict_reported.
 Print Assumptions C05_system_dead_releases.
 Print Assumptions C05_system_own_reply.
+Print Assumptions C05_close_reports_root_cause.
+Print Assumptions C05_close_ok_iff.
 Print Assumptions C05_example.
 Print Assumptions C05_system_example.
